@@ -519,8 +519,8 @@ class Verdict:
     def violation(self, sig, detail, replay=None):
         """sig: dict of machine-matchable facts about the failing case."""
         for k in self.known:
-            m = k.get("match", {})
-            if all(_match(sig.get(f), want) for f, want in m.items()):
+            ms = k.get("match", {})
+            if any(all(_match(sig.get(f), want) for f, want in m.items()) for m in (ms if isinstance(ms, list) else [ms])):
                 self.known_hits.setdefault(k["id"], [k, 0])[1] += 1
                 return False
         self.violations.append((sig, detail, replay))
